@@ -27,6 +27,10 @@ var raceCorpus = []string{
 	`round(1.5)`, `number(//b/@x) < 2`, `//b[@x = //b/@x]`, `//*[last() - 1]`, `substring-before("a-b","-") = substring-after("b-a","-")`,
 	`//b[not(c)][1]`, `//text()`, `//comment() | //@*`, `string(//b[2]/@x)`, `matches("aab", "a+b")`, `replace("aab", "a(a)", "$1$1")`,
 	`true() != false()`, `//b[c][@x > 1]`, `descendant-or-self::b/descendant::b`, `//b[last()]`, `count(//b[position() < 3])`,
+	`floor(//b/@x + 1)`, `string(//b/@x + 0)`, `concat('p=', //b/@x + 1, '|', -//b/@x)`, `ceiling(count(//c) div 2)`, `number(//b/@x * 2) > 1`,
+	`string((//b)[2]/@x)`, `count((//c)[1])`, `name((//*)[3])`, `concat(concat(//b/@x, '-'), normalize-space(' a '))`, `concat(normalize-space(//b), concat('x', 'y'))`,
+	`matches(string(//b[2]/@x), concat('^', //b[2]/@x, '$'))`, `replace(string(//b/@x), string(//b/@x), 'q')`, `substring-after(string(//b[3]/@x), '1')`,
+	`//b[count((c)[1]) = 1]`, `//*[string((*)[1]) = '']`, `//b[@x = 2 or c/b[1]]`, `sum((//b/@x)[position() < 3])`, `//b/@x[. > 1] | //c[1]`,
 }
 
 func obsAll(e *xpath.Expr, root *doc.Node, all []doc.Ref) []string {
@@ -52,6 +56,31 @@ func raceMain(args []string) {
 	g := &G{r: r, predAxes: allAxes}
 	for i := 0; i < 40; i++ {
 		corpus = append(corpus, gen.Str(g.validExpr(), both[i%2]))
+	}
+	// scalar expressions of the other properties' generators and the targeted families
+	gf := &G{r: r, predAxes: flatAxes}
+	for i := 0; i < 60; i++ {
+		var e gen.Ex
+		switch i % 6 {
+		case 0:
+			e = gf.aexp(3)
+		case 1:
+			e = gf.sExpr(3)
+		case 2:
+			e = gf.ctxRestore([]string{"bool", "cmp", "arith", "union", "string"}[(i/6)%5])
+		case 3:
+			fs := gf.funcsOverArg(gf.statefulArg(), []string{"numeric", "string", "name", "bool", "seq"}[(i/6)%5])
+			e = fs[r.Intn(len(fs))]
+		case 4:
+			e = gen.Bin{Op: cmpOps[r.Intn(6)], L: gf.anyOperand(), R: gf.anyOperand()}
+		default:
+			e = gf.boolPred(2)
+		}
+		corpus = append(corpus, gen.Str(e, both[i%2]))
+	}
+	// distinct regular expressions: cache misses overlapping in time
+	for i := 0; i < 24; i++ {
+		corpus = append(corpus, fmt.Sprintf(`matches(string(//b[2]/@x), concat('^[%d-9]', '*$'))`, i%9), fmt.Sprintf(`replace('a%db', concat('%d', ''), 'x')`, i, i))
 	}
 	var compiled []*xpath.Expr
 	var want [][]string
